@@ -44,6 +44,7 @@ RULE = ("(1) ALL sequences of server behaviours {newer, same, older, up-to-date,
         "ofxget._queue_scans with random delays and yield injection; (4) client pairs over equal/different ORG x FID x URL (incl. same host, "
         "different path; both ORG and FID unset). A case = one history / crash point / schedule / pair")
 ASSUMPTIONS = ["the fake server replaces only urllib's http_open/https_open; profile bodies are hand-written templates (vf/net/ofxserver.py)",
+               "a restart = a child process with its own PYTHONHASHSEED; half of the crash points run with TMPDIR on another file system (/dev/shm) than the data directory when one is available",
                "mid-write crashes are emulated at Python level (proxy writes half, flushes, os._exit); a stray *.tmp file is not the cache and is not judged",
                "under CONCURRENT requests, 'newest' is judged in real-time order only: a writer that started before a newer profile was cached may "
                "overwrite it (both requests were in flight together); whole-ness and parseability are judged unconditionally",
